@@ -237,19 +237,23 @@ fn path_expr(input: &str) -> IResult<&str, model::PathExpr> {
         map(
             tuple((
                 filter_expr,
-                delimited(
-                    multispace0,
-                    map(
-                        alt((tag("//"), tag("/"))),
-                        model::LocationPathOperator::from,
+                opt(tuple((
+                    delimited(
+                        multispace0,
+                        map(
+                            alt((tag("//"), tag("/"))),
+                            model::LocationPathOperator::from,
+                        ),
+                        multispace0,
                     ),
-                    multispace0,
-                ),
-                relative_location_path,
+                    relative_location_path,
+                ))),
             )),
-            |(filter, op, path)| model::PathExpr::from((Some((Some(filter), op)), path)),
+            |(filter, rest)| match rest {
+                Some((op, path)) => model::PathExpr::from((Some((Some(filter), op)), path)),
+                None => model::PathExpr::from(filter),
+            },
         ),
-        map(filter_expr, model::PathExpr::from),
         map(
             tuple((
                 terminated(
@@ -263,7 +267,6 @@ fn path_expr(input: &str) -> IResult<&str, model::PathExpr> {
             )),
             |(op, path)| model::PathExpr::from((Some((None, op)), path)),
         ),
-        map(filter_expr, model::PathExpr::from),
         map(relative_location_path, model::PathExpr::from),
         map(char('/'), |_| model::PathExpr::Root),
     ))(input)
